@@ -19,7 +19,7 @@ pub const DEF: PropDef = PropDef {
     id: "C06",
     run,
     oracle,
-    rule: "cases = operation sequences Feed(parser in {A,B}, buffer of 1..3 packets) over two parser instances with independently generated allowed sets; packets come from one conformant plan over a small id pool shared by V9 and IPFIX (so an id regularly exists in both protocols and in both parsers with different meanings): template definitions, redefinitions with different field lists, changes of kind (template <-> options template), data, options data, V5/V7 packets, data for ids only the other parser knows, plus inserted truncated template packets (cut inside a template record or a flowset header), packets of versions the target parser disallows, and unknown-version garbage. Oracle: (1) after every call the public cache maps of each parser, normalised to {(protocol, kind, id) -> field list}, equal the model (latest wins, never evicts, unchanged by V5/V7, data, disallowed versions, truncated input); (2) every decodable data flowset equals the reference decode under the model's current template; (3) for each parser, every partition of its packet stream into calls (all 2^(m-1) for m <= 7 units, 48 sampled beyond; a packet that is not self-delimiting for that parser ends its call) yields identical concatenated results and final caches; (4) a fresh parser fed only B's stream ends in exactly B's state and results. Extra phase: 7..65280 (= every usable id) distinct template ids (dense runs, runs spread over the whole id space with strides 7..4099, ids that agree in their low 8..13 bits) defined over several calls, then data for ids from the whole range - nothing is evicted, no id collides with another. Extra phase: a template followed by 300..70,000 calls that do not mention it, then data for it (no expiry). Excluded shape: an IPFIX set after a set with an unknown template in the same message (C05/C07). non-trivial = a redefinition with a different field list followed by data for that id, and one of: the id is live in both protocols, the two parsers' caches diverge, a truncated template packet, a disallowed-version template packet, >= 3 partitions compared; distinct by digest.",
+    rule: "cases = operation sequences Feed(parser in {A,B}, buffer of 1..3 packets) over two parser instances with independently generated allowed sets; packets come from one conformant plan over a small id pool shared by V9 and IPFIX (so an id regularly exists in both protocols and in both parsers with different meanings): template definitions, redefinitions with different field lists, changes of kind (template <-> options template), data, options data, V5/V7 packets, data for ids only the other parser knows, plus inserted truncated template packets (cut inside a template record or a flowset header), packets of versions the target parser disallows, unknown-version garbage, and IPFIX template-withdrawal messages (a template record with field count 0 for an id of the pool; the library does not implement withdrawal, the caches must stay as they are). Oracle: (1) after every call the public cache maps of each parser, normalised to {(protocol, kind, id) -> field list}, equal the model (latest wins, never evicts, unchanged by V5/V7, data, disallowed versions, truncated input); (2) every decodable data flowset equals the reference decode under the model's current template; (3) for each parser, every partition of its packet stream into calls (all 2^(m-1) for m <= 7 units, 48 sampled beyond; a packet that is not self-delimiting for that parser ends its call) yields identical concatenated results and final caches; (4) a fresh parser fed only B's stream ends in exactly B's state and results. Extra phase: 7..65280 (= every usable id) distinct template ids (dense runs, runs spread over the whole id space with strides 7..4099, ids that agree in their low 8..13 bits) defined over several calls, then data for ids from the whole range - nothing is evicted, no id collides with another. Extra phase: a template followed by 300..140,000 calls that do not mention it, then data for it (no expiry). Excluded shape: an IPFIX set after a set with an unknown template in the same message (C05/C07). non-trivial = a redefinition with a different field list followed by data for that id, and one of: the id is live in both protocols, the two parsers' caches diverge, a truncated template packet, a disallowed-version template packet, >= 3 partitions compared; distinct by digest.",
     assumptions: &["what a truncated V9 packet may still teach the cache: the complete template records of the complete flowsets in front of the cut (C14 states the same)"],
 };
 
@@ -204,6 +204,19 @@ fn walk_call(
                         units.push(Unit::Terminal);
                     }
                 }
+            }
+            10 if is_withdrawal_message(a) => {
+                // RFC 7011 8.1 template withdrawal (a template record with field count 0): the
+                // library does not implement withdrawal and the property says templates are
+                // never evicted - whatever it reports for the message (one element), the
+                // caches stay as they are (the model is not touched)
+                o.label("ipfix-template-withdrawal-record");
+                if i >= res.len() {
+                    return Err(at("nothing reported for an IPFIX message holding a zero-field template record".into()));
+                }
+                i += 1;
+                terminal = true;
+                units.push(Unit::Terminal);
             }
             10 => {
                 let mut trial = model.clone();
@@ -453,6 +466,12 @@ pub fn oracle(case: &Case) -> Outcome {
     o
 }
 
+/// an IPFIX message that is exactly one template (or options template) set holding one record
+/// {id, field count 0}
+fn is_withdrawal_message(a: &[u8]) -> bool {
+    a.len() == 24 && be16(a, 0) == 10 && be16(a, 2) == 24 && matches!(be16(a, 16), 2 | 3) && be16(a, 18) == 8 && be16(a, 22) == 0
+}
+
 fn garbage_version() -> BoxedStrategy<u16> {
     prop_oneof![Just(0u16), Just(1), Just(8), Just(11), Just(0x0900), Just(0xffff)].boxed()
 }
@@ -462,6 +481,8 @@ enum Insert {
     /// cut a copy of the (scaled) template-bearing atom at a (scaled) position and feed it
     Truncated(u8, u16),
     Garbage(u16, Vec<u8>),
+    /// an IPFIX template withdrawal for a (scaled) id of the pool, or for all ids (id 2 / 3)
+    Withdrawal(u8, bool),
 }
 
 pub fn c06_case(max_calls: usize) -> BoxedStrategy<Case> {
@@ -470,6 +491,7 @@ pub fn c06_case(max_calls: usize) -> BoxedStrategy<Case> {
     let ins = prop_oneof![
         3 => (any::<u8>(), any::<u16>()).prop_map(|(a, p)| Insert::Truncated(a, p)),
         1 => (garbage_version(), proptest::collection::vec(any::<u8>(), 0..20)).prop_map(|(v, j)| Insert::Garbage(v, j)),
+        1 => (any::<u8>(), any::<bool>()).prop_map(|(i, o)| Insert::Withdrawal(i, o)),
     ];
     (
         gen::pool(2..=3, 5, true),
@@ -480,6 +502,7 @@ pub fn c06_case(max_calls: usize) -> BoxedStrategy<Case> {
         any::<u8>(),
     )
         .prop_map(|(pool, calls, inserts, a0, a1, by_records)| {
+            let pool_ids = pool.ids.clone();
             let parsers: Vec<usize> = calls.iter().map(|(b, _)| *b as usize).collect();
             let plan = gen::StreamPlan { pool, calls: calls.into_iter().map(|(_, p)| p).collect() };
             let opts = BuildOpts { count_by_flowsets: by_records % 4 != 0, ..BuildOpts::STRICT };
@@ -501,6 +524,16 @@ pub fn c06_case(max_calls: usize) -> BoxedStrategy<Case> {
                         let mut a = v.to_be_bytes().to_vec();
                         a.extend(j);
                         out[ci].packets.push(a);
+                    }
+                    Insert::Withdrawal(sel, options) => {
+                        let id = match sel % 5 {
+                            0 => if options { 3 } else { 2 }, // "withdraw all"
+                            _ => pool_ids[(sel as usize * pool_ids.len()) >> 8],
+                        };
+                        let mut w = W::default();
+                        enc_ipfix_header(&mut w, 24, &[5, 6, 7]);
+                        w.u16(if options { 3 } else { 2 }).u16(8).u16(id).u16(0);
+                        out[ci].packets.push(w.0);
                     }
                     Insert::Truncated(ai, p) => {
                         // pick a V9/IPFIX atom of this call, append a truncated copy as the last atom
@@ -627,16 +660,12 @@ pub fn many_ids_case() -> BoxedStrategy<Case> {
         .boxed()
 }
 
-/// A template, then a long stretch of traffic that does not mention it (300 .. 70,000 calls of
+/// A template, then a long stretch of traffic that does not mention it (300 .. 140,000 calls of
 /// header-only and V5 packets, data for another id), then data for it: templates persist -
 /// there is no expiry by number of calls or packets.
-pub fn idle_case() -> BoxedStrategy<Case> {
-    (
-        prop_oneof![4 => Just(300usize), 3 => Just(1100), 2 => Just(5000), 1 => Just(70000)],
-        any::<bool>(),
-        any::<u8>(),
-    )
-        .prop_map(|(n, v9, fill)| {
+pub fn idle_case(n: usize, v9: bool, fill: u8) -> Case {
+    {
+        {
             let proto = if v9 { Proto::V9 } else { Proto::Ipfix };
             let pkt = |body: &[u8], nsets: usize| -> Vec<u8> {
                 let mut w = W::default();
@@ -677,8 +706,8 @@ pub fn idle_case() -> BoxedStrategy<Case> {
             }
             calls.push(Call { parser: 0, packets: vec![pkt(&dset(256, 12), 1)] });
             Case { allowed: vec![crate::engine::DEFAULT_ALLOWED.to_vec()], calls, params: Default::default() }
-        })
-        .boxed()
+        }
+    }
 }
 
 pub fn run(ctx: &Ctx) {
@@ -686,5 +715,16 @@ pub fn run(ctx: &Ctx) {
     ctx.search("two-parsers-histories", ctx.n(120_000, 10_000_000), &|| c06_case(6), &oracle);
     ctx.search("many-template-ids-never-evicted", ctx.n(400, 8_000), &many_ids_case, &oracle);
     ctx.search("longer-histories", ctx.n(10_000, 1_000_000), &|| c06_case(14), &oracle);
-    ctx.search("template-survives-long-idle-stretch", ctx.n(48, 1_000), &idle_case, &oracle);
+    let mut idle = vec![];
+    for n in [300usize, 1100, 5000, 70_000, 140_000] {
+        for v9 in [true, false] {
+            for fill in [0u8, 1, 2, 3] {
+                if n >= 70_000 && fill >= 2 {
+                    continue;
+                }
+                idle.push(idle_case(n, v9, fill));
+            }
+        }
+    }
+    ctx.enumerate("template-survives-long-idle-stretch", idle, false, &oracle);
 }
